@@ -3,7 +3,7 @@
    Finite decimals denote rationals through dec_val.
    Not covered (the model answers Unk): exp, ln, log, sqrt. *)
 From Coq Require Import String Ascii QArith Qabs Qpower.
-From Formula Require Import Sem.Eval.
+From Formula Require Import Sem.Eval Proofs.NumTextFacts.
 Local Open Scope Z_scope.
 
 Arguments str s%string.
@@ -182,11 +182,11 @@ Lemma ba_toInt_num off d :
 Proof. reflexivity. Qed.
 Lemma ba_toFloat_num off d : builtin_apply off (str "toFloat") [VNum d] = Ok (VNum d).
 Proof. reflexivity. Qed.
-Lemma ba_toFloat_str off s : builtin_apply off (str "toFloat") [VStr s] = Ok (VNum (dec_of_string s)).
+Lemma ba_toFloat_str off s : builtin_apply off (str "toFloat") [VStr s] = Ok (VNum (num_of_text s)).
 Proof. reflexivity. Qed.
 Lemma ba_toInt_str off s :
   builtin_apply off (str "toInt") [VStr s] =
-  match to_i64_opt (dec_of_string s) with Some a => Ok (VNum (dec_of_Z a)) | None => Unk end.
+  match to_i64_opt (num_of_text s) with Some a => Ok (VNum (dec_of_Z a)) | None => Unk end.
 Proof. reflexivity. Qed.
 Lemma ba_finite_str off s : builtin_apply off (str "finite") [VStr s] = Ok (VNum dec_zero).
 Proof. reflexivity. Qed.
@@ -888,9 +888,13 @@ Theorem toInt_nonfinite off n :
   builtin_apply off (str "toInt") [VNum NaN] = Ok (VNum dec_zero).
 Proof. split; reflexivity. Qed.
 
+(* arithmetic and comparison on a string operand use the same coercion as toFloat *)
+Lemma conv_to_number_string s : conv_to_number (VStr s) = num_of_text s.
+Proof. reflexivity. Qed.
+
 (* toInt of a string converts with toFloat first *)
 Theorem toInt_string off s :
-  builtin_apply off (str "toInt") [VStr s] = builtin_apply off (str "toInt") [VNum (dec_of_string s)].
+  builtin_apply off (str "toInt") [VStr s] = builtin_apply off (str "toInt") [VNum (num_of_text s)].
 Proof. rewrite ba_toInt_str, ba_toInt_num. reflexivity. Qed.
 
 Example ex_toInt :
@@ -901,7 +905,7 @@ Proof. repeat split. Qed.
 
 Theorem toFloat_spec off :
   (forall d, builtin_apply off (str "toFloat") [VNum d] = Ok (VNum d)) /\
-  (forall s, builtin_apply off (str "toFloat") [VStr s] = Ok (VNum (dec_of_string s))).
+  (forall s, builtin_apply off (str "toFloat") [VStr s] = Ok (VNum (num_of_text s))).
 Proof. split; intros; reflexivity. Qed.
 
 Example ex_toFloat :
@@ -1209,13 +1213,87 @@ Proof.
   - reflexivity.
 Qed.
 
+(* the spelling of a finite number is a decimal numeral in the evaluator's sense *)
+Lemma body_numeral ds e : forallb is_dig ds = true -> ds <> [] ->
+  exists ip ft fp et ev,
+    body_of ds e = ip ++ ft ++ et /\ is_digits ip /\ frac_text ft fp /\ ip ++ fp <> [] /\ exp_text et ev.
+Proof.
+  intros Hall Hne. destruct ds as [|d tl]; [contradiction Hne; reflexivity|].
+  assert (Hall' := Hall). cbn [forallb] in Hall'. apply andb_true_iff in Hall' as [Hd Htl].
+  unfold body_of. cbv zeta.
+  set (ds := d :: tl) in *. set (nd := Z.of_nat (length ds)). set (adj := e + nd - 1).
+  assert (Hexp : exp_text (69 :: (if adj <? 0 then [45] else [43]) ++ digits_of (Z.abs adj))
+                          (if (adj <? 0) then - dval (digits_of (Z.abs adj)) else dval (digits_of (Z.abs adj)))).
+  { destruct (digits_of_spec (Z.abs adj) (Z.abs_nonneg adj)) as [Hdd [_ Hdne]].
+    apply (exp_present 69 (if adj <? 0 then [45] else [43]) (adj <? 0) (digits_of (Z.abs adj))).
+    - right. reflexivity.
+    - destruct (adj <? 0); constructor.
+    - apply is_digits_forallb. exact Hdd.
+    - exact Hdne. }
+  destruct ((e <=? 0) && (-6 <=? adj)).
+  - destruct (e =? 0).
+    + exists ds, [], [], [], 0. split; [rewrite !app_nil_r; reflexivity|].
+      split; [apply is_digits_forallb; exact Hall|]. split; [constructor|].
+      split; [rewrite app_nil_r; exact Hne|constructor].
+    + destruct (0 <? nd + e).
+      * set (k := Z.to_nat (nd + e)).
+        exists (firstn k ds), (46 :: skipn k ds), (skipn k ds), [], 0.
+        split; [rewrite app_nil_r; reflexivity|].
+        split; [apply is_digits_forallb; apply forallb_firstn; exact Hall|].
+        split; [constructor; apply is_digits_forallb; apply forallb_skipn; exact Hall|].
+        split; [rewrite firstn_skipn; exact Hne|constructor].
+      * exists [48], (46 :: zeros (- (nd + e)) ++ ds), (zeros (- (nd + e)) ++ ds), [], 0.
+        split; [rewrite app_nil_r; reflexivity|].
+        split; [apply is_digits_forallb; reflexivity|].
+        split; [constructor; apply is_digits_forallb; rewrite forallb_app, zeros_digits, Hall; reflexivity|].
+        split; [discriminate|constructor].
+  - unfold ds. destruct tl as [|d2 tl2].
+    + eexists [d], [], [], _, _. split; [reflexivity|].
+      split; [apply is_digits_forallb; cbn [forallb]; rewrite Hd; reflexivity|].
+      split; [constructor|]. split; [discriminate|exact Hexp].
+    + eexists [d], (46 :: d2 :: tl2), (d2 :: tl2), _, _. split; [reflexivity|].
+      split; [apply is_digits_forallb; cbn [forallb]; rewrite Hd; reflexivity|].
+      split; [constructor; apply is_digits_forallb; exact Htl|]. split; [discriminate|exact Hexp].
+Qed.
+
+Theorem toString_is_decimal_text n c e : 0 <= c -> is_decimal_text (dec_to_string (Fin n c e)) = true.
+Proof.
+  intros Hc. destruct (digits_of_spec c Hc) as [Hd [_ Hne]].
+  rewrite dec_to_string_fin.
+  destruct (body_numeral (digits_of c) e Hd Hne) as (ip & ft & fp & et & ev & Hb & Hip & Hft & Hn & Het).
+  rewrite Hb.
+  apply (is_decimal_text_build (if n then [45] else []) n ip ft fp et ev); try assumption.
+  destruct n; constructor.
+Qed.
+
+(* the same round trip through the evaluator's own string->number coercion: finite numbers,
+   infinities ("Infinity", "-Infinity") and NaN ("NaN") alike *)
+Theorem toString_roundtrip_text d : dec_wf d = true -> num_of_text (dec_to_string d) = d.
+Proof.
+  intros Hwf. destruct d as [n c e|n|].
+  - assert (Hc : 0 <= c) by (cbn [dec_wf] in Hwf; apply Z.leb_le; exact Hwf).
+    rewrite num_of_text_decimal by (apply toString_is_decimal_text; exact Hc).
+    apply toString_roundtrip_fin. exact Hc.
+  - destruct n; reflexivity.
+  - reflexivity.
+Qed.
+
 (* toString of a number, read back by toFloat, is the same number in the same representation *)
 Theorem toString_toFloat off d s : dec_wf d = true ->
   builtin_apply off (str "toString") [VNum d] = Ok (VStr s) ->
   builtin_apply off (str "toFloat") [VStr s] = Ok (VNum d).
 Proof.
   intros Hwf. rewrite ba_toString_num, ba_toFloat_str. intros H. injection H as H. subst s.
-  rewrite toString_roundtrip by exact Hwf. reflexivity.
+  rewrite toString_roundtrip_text by exact Hwf. reflexivity.
+Qed.
+
+(* ... and by toInt gives what toInt gives on the number itself *)
+Theorem toString_toInt off d s : dec_wf d = true ->
+  builtin_apply off (str "toString") [VNum d] = Ok (VStr s) ->
+  builtin_apply off (str "toInt") [VStr s] = builtin_apply off (str "toInt") [VNum d].
+Proof.
+  intros Hwf. rewrite ba_toString_num, ba_toInt_str, ba_toInt_num. intros H. injection H as H. subst s.
+  rewrite toString_roundtrip_text by exact Hwf. reflexivity.
 Qed.
 
 Theorem toString_roundtrip_cmp d : dec_wf d = true -> dec_cmp (dec_of_string (dec_to_string d)) d = 0.
